@@ -40,6 +40,8 @@ def mkval(sym, name, typ, reps_numeric, strlen):
         return sym.enumstr(name, strlen, 'ab').encode('ascii')
     if typ in ('date', 'datetime', 'time'):
         return sym.pick(name, REPS[typ])
+    if typ == 'seq1':
+        return tuple([cell(sym, name + '.0', 'O')][:sym.choice(name + '.len', 2)])
     if typ == 'seq':
         # list or tuple of two cells from None | int | str(<=1)
         a = cell(sym, name + '.0', 'O' if quick else 'M')
@@ -62,7 +64,8 @@ def laws(sym, t1, t2s, t3s, strlen=1):
     solver-chosen from t2s / t3s."""
     t2 = sym.pick('type2', t2s)
     t3 = sym.pick('type3', t3s)
-    nnum = len(set(t for t in (t1, t2, t3) if t in NUMERIC))
+    # sequences hold symbolic ints: count them as 'int' for the mixing rule
+    nnum = len(set(('int' if t.startswith('seq') else t) for t in (t1, t2, t3) if t in NUMERIC or t.startswith('seq')))
     reps = nnum >= 2
     a = mkval(sym, 'a', t1, reps, strlen)
     b = mkval(sym, 'b', t2, reps, strlen)
@@ -159,7 +162,7 @@ def jobs(tier):
     for t1 in TYPES:
         for t2 in TYPES:
             if q and 'seq' in (t1, t2):
-                for t3 in ['int', 'str', 'seq']:       # split further: sequences fork most
+                for t3 in ['int', 'str', 'seq1' if t1 == t2 == 'seq' else 'seq']:   # split: sequences fork most
                     out.append(dict(name='laws/%s/%s/%s' % (t1, t2, t3), func='laws',
                                     params=dict(t1=t1, t2s=[t2], t3s=[t3], strlen=1),
                                     budget=400 if [t1, t2, t3].count('seq') >= 2 else 120))
@@ -172,6 +175,14 @@ def jobs(tier):
         for keyed in (True, False):
             out.append(dict(name='issorted/%s/keyed=%d' % (dom, keyed), func='issorted_consumer',
                             params=dict(N=N if dom == 'O' else 3, dom=dom, keyed=keyed), budget=240 if q else 900))
+    # consumers: merge joins on mixed-type keys (harnesses of C06)
+    for op in ('join', 'leftjoin', 'outerjoin', 'lookupjoin'):
+        for (a, b) in ((2, 1), (1, 2)):
+            out.append(dict(name='consumer-%s/%dx%d/M' % (op, a, b), module='props.c06', func='join_op',
+                            params=dict(op=op, NL=a, NR=b, dom='M'), budget=240 if q else 900))
+    for (a, b) in ((2, 1), (1, 2)):
+        out.append(dict(name='consumer-antijoin/%dx%d/M' % (a, b), module='props.c06', func='antijoin_op',
+                        params=dict(NL=a, NR=b, dom='M'), budget=240 if q else 900))
     out.append(dict(name='selectors/M', func='selector_consumer', params=dict(N=2 if q else 3, dom='M'),
                     budget=240 if q else 900))
     return out
